@@ -143,3 +143,13 @@ Print Assumptions C19_inference_py_add_runs_is_the_model.
 Print Assumptions C19_inference_py_add_bootstrap_is_the_model.
 Print Assumptions C19_inference_py_reported_distribution_is_built_from_reported_parameters.
 Print Assumptions C19_inference_py_add_run_fails_exactly_when_not_run.
+
+(* ---- the SOURCE of utils.parallelize (pinned on every run by translate/utils2coq.py into gen/UtilsGen.v): the runs (and the bootstraps) come
+   back IN THE ORDER of their start values / bootstrap objects, in parallel or not, with or without a progress bar - the reading the
+   bookkeeping above assumes of `results = parallelize(...)` ---- *)
+From PG Require Import gen.UtilsGen proofs.GenUtilsEquiv.
+Theorem C19_utils_py_runs_come_back_in_order :
+  forall (A B : Type) (func : A -> B) (data : list A) (par pbar par' pbar' : bool),
+    parallelize func data par pbar = map func data /\ parallelize func data par pbar = parallelize func data par' pbar'.
+Proof. intros. split; [apply gen_parallelize_is_ordered_map | apply gen_parallelize_flags_irrelevant]. Qed.
+Print Assumptions C19_utils_py_runs_come_back_in_order.
